@@ -14,8 +14,8 @@ ASSUMPTIONS = ["every ground-truth pose has >= 1 visible node (an all-NaN instan
                "coordinates are dyadic rationals so that integer translations are exact in float64",
                "frame_pr contains only PredictedInstance objects (instances without a score are outside match_instances' contract)"]
 SHARDS = {"quick": 4, "thorough": 16}
-N = {"quick": 6000, "thorough": 600000}
-BUDGET = {"quick": 100, "thorough": 1200}
+N = {"quick": 18000, "thorough": 6000000}
+BUDGET = {"quick": 100, "thorough": 600}
 TIMEOUT = {"quick": 600, "thorough": 3000}
 SELF_SHARDED = True
 FAMILIES = ["oks", "oks", "match", "hungarian", "greedy", "iou"]
